@@ -21,6 +21,13 @@
  *   seek <o> <off> <set|cur|end|bad> | tell <o> | flush <o> | eof <o>
  *   read <o> <size> | write <o> <len> <seed> | writehex <o> <hex|-> | print <o> <int> | scan <o>
  *   dump <file> | rm <file>
+ *   tp <o> <spec> <value> <sep>          print_to(f, 0, "%<spec><sep>", x): spec = [hh|h|l|ll|j|z|t|q]?[diouxX] | c | l?[fFeEgG] | s |
+ *                                         $i | $f | $s (`%$` on an Int / Float / String); value = decimal int64 | x<16 hex digits of the
+ *                                         double> | hex bytes of the string (`-` = empty); sep = hex bytes of the literal run that follows
+ *                                         (`-` = none; no `%`, no NUL, at most 8 bytes)
+ *   ts <o> <spec> <sep>                  scan_from(f, 0, "%<spec><sep>", x) into an Int (-777) / Float (7.5) / String ("?"): the value
+ *                                         delivered, the position returned, the stream afterwards.  Executed when libc converts the text
+ *                                         at the position (or the file ends there): anything else is answered `unsup` by both sides.
  *   drop <o>                              the collector as the closer: the slot is cleared, the stack below is scrubbed and a
  *                                         collection is forced (GC_Mark + GC_Sweep → File_Del → File_Close); expected: what `del` does
  * Process (the second Stream class of src/File.c: the same wrappers over popen / pclose; slots 0..1 = stack objects
@@ -55,7 +62,14 @@
  *     expression asks for (sig=with-init-calls), leaving through the step clause makes exactly one stdio call, fclose of the handle
  *     the loop variable's File held when the body ended (sig=with-exit-calls), break / return / exception make none;
  *   - copy / assign make no stdio call (sig=copy-calls) and a copy of a closed File is closed;
- *   - drop: the forced collection makes exactly the fclose `del` would make and the handle is gone (sig=collector-close).
+ *   - drop: the forced collection makes exactly the fclose `del` would make and the handle is gone (sig=collector-close);
+ *   - typed text (tp / ts): the twin receives the same text from libc's own fprintf with the argument converted to the type the
+ *     specification names; ts: libc's own fscanf of the same bytes with the same conversion INTO THE C TYPE the specification names
+ *     (signed char / unsigned char … long / unsigned long, char, float / double, a char array) is compared with what scan_from
+ *     delivered into the Int / Float / String object (sig=text-value-mismatch), the position returned with `%n` + the literal's
+ *     length (sig=ret-mismatch), the stream with the twin (tell / eof); and the round trip itself: a value printed at an offset
+ *     with a specification whose type can represent it, read at that offset with the same specification, must come back
+ *     identical (sig=text-roundtrip).
  * Known findings (the oracle reports them under their own signature; generated inputs stay out of these regions):
  *   sig=kf-c20-with-early-exit       a with block left by break / return / an exception while its File is open: stop_in does not
  *                                    run, the stream stays open ("leaving a with block closes the stream exactly once" fails);
@@ -70,6 +84,7 @@
  */
 #include "common.h"
 #include <errno.h>
+#include <ctype.h>
 #include <stdint.h>
 #include <sys/stat.h>
 #include <fcntl.h>
@@ -116,8 +131,12 @@ static int plive_index(FILE* fp) { for (int i = 0; i < nplive; i++) if (plive_fp
 static int live_index(FILE* fp) { for (int i = 0; i < nlive; i++) if (live_fp[i] == fp) return i; return -1; }
 static int dead_index(FILE* fp) { for (int i = ndead - 1; i >= 0; i--) if (dead_fp[i] == fp) return i; return -1; }
 static int in_ids(const int* t, int n, int id) { for (int i = 0; i < n; i++) if (t[i] == id) return 1; return 0; }
+static char first_call[64]; static int calls_same = 1;      /* for the compressed call report of the typed text ops */
 static void rec_call(const char* fn, const char* what) {
   ncalls++;
+  { char one[64]; snprintf(one, sizeof one, "%s:%s", fn, what);
+    if (ncalls == 1) { snprintf(first_call, sizeof first_call, "%s", one); calls_same = 1; }
+    else if (strcmp(one, first_call) != 0) calls_same = 0; }
   if (calllen + 40 < sizeof callbuf) calllen += snprintf(callbuf + calllen, sizeof callbuf - calllen, "%s%s:%s", calllen ? "," : "", fn, what);
 }
 static int passthrough(FILE* fp) { return !trk || fp == stdout || fp == stderr || fp == stdin; }
@@ -254,7 +273,7 @@ static uint64_t fnv(const unsigned char* p, size_t n) {
 /* results of the op being executed (static: they are written between setjmp and longjmp) */
 static var r_exc; static long long r_ret; static long long r_val;
 
-static void begin_op(void) { calllen = 0; callbuf[0] = 0; ncalls = 0; r_exc = NULL; r_ret = 0; r_val = 0; }
+static void begin_op(void) { calllen = 0; callbuf[0] = 0; ncalls = 0; r_exc = NULL; r_ret = 0; r_val = 0; first_call[0] = 0; calls_same = 1; }
 
 /* state of object o as libc sees the raw stream */
 static void st_text(int o, char* out, size_t n) {
@@ -339,6 +358,7 @@ static int busy(int k, int except) {
   return 0;
 }
 
+static void trec_drop(int k, long from);      /* typed text: forget what print_to wrote into file k at offsets >= from */
 /* open path shared by `open` and `new` with arguments; `fresh` = object did not exist before */
 static void mirror_open(int o, int k, const char* mode, const char* op, int was_open) {
   var want = NULL;
@@ -350,7 +370,8 @@ static void mirror_open(int o, int k, const char* mode, const char* op, int was_
     char p[400]; path_of(k, 1, p, sizeof p);
     FILE* tw = __real_fopen(p, mode);
     if (!tw) want = IOError;
-    else { bk[o].twin = tw; bk[o].file = k; snprintf(bk[o].mode, sizeof bk[o].mode, "%s", mode); bk[o].last = L_NONE; bk[o].pending = 0; }
+    else { bk[o].twin = tw; bk[o].file = k; snprintf(bk[o].mode, sizeof bk[o].mode, "%s", mode); bk[o].last = L_NONE; bk[o].pending = 0;
+           if (mode[0] == 'w') trec_drop(k, 0); }
   }
   expect_exc(op, want);
   if (objs[o]) {
@@ -406,7 +427,7 @@ static void do_write(int o, const char* op, size_t len) {
     var want = (r2 != 1 && len != 0) ? IOError : NULL;
     expect_exc(op, want);
     if (!r_exc && (size_t)r_ret != r2) X("sig=ret-mismatch line=%zu what=swrite returned %lld, fwrite on the twin %zu", cur_line, r_ret, r2);
-    if (len > 0 && m_write(bk[o].mode)) { bk[o].last = L_WRITE; if (bk[o].file == F_FULL) bk[o].pending += (long)len; }
+    if (len > 0 && m_write(bk[o].mode)) { bk[o].last = L_WRITE; if (bk[o].file == F_FULL) bk[o].pending += (long)len; trec_drop(bk[o].file, 0); }
     compare_stream(o, op);
   }
   snprintf(ex, sizeof ex, "ret=%lld", r_exc ? -1LL : r_ret);
@@ -635,6 +656,296 @@ static void exec_shared(int o, int sh, const char* op, char** tok, int nt) {
     return;
   }
   O("%s unsup", op);
+}
+
+
+/* ------------------------------------------------------------------------------------------ typed text: tp / ts */
+enum { T_INT, T_CHR, T_FLT, T_STR, T_SHOWI, T_SHOWF, T_SHOWS };
+struct tspec { int kind; int width; int sgn; int wide; char conv; char fmt[16]; char name[8]; };
+static int parse_tspec(const char* sp, struct tspec* t) {
+  memset(t, 0, sizeof *t);
+  size_t n = strlen(sp); if (n < 1 || n > 3) return 0;
+  snprintf(t->name, sizeof t->name, "%s", sp);
+  if (!strcmp(sp, "c")) { t->kind = T_CHR; strcpy(t->fmt, "%c"); return 1; }
+  if (!strcmp(sp, "s")) { t->kind = T_STR; strcpy(t->fmt, "%s"); return 1; }
+  if (!strcmp(sp, "$i")) { t->kind = T_SHOWI; strcpy(t->fmt, "%$"); return 1; }
+  if (!strcmp(sp, "$f")) { t->kind = T_SHOWF; strcpy(t->fmt, "%$"); return 1; }
+  if (!strcmp(sp, "$s")) { t->kind = T_SHOWS; strcpy(t->fmt, "%$"); return 1; }
+  char conv = sp[n - 1]; char mod[4]; memcpy(mod, sp, n - 1); mod[n - 1] = 0;
+  t->conv = conv;
+  if (strchr("diouxX", conv)) {
+    static const char* M[] = { "", "hh", "h", "l", "ll", "j", "z", "t", "q", NULL };
+    int ok = 0; for (int i = 0; M[i]; i++) if (!strcmp(M[i], mod)) ok = 1;
+    if (!ok) return 0;
+    t->kind = T_INT; t->sgn = conv == 'd' || conv == 'i';
+    t->width = !strcmp(mod, "hh") ? 8 : !strcmp(mod, "h") ? 16 : !mod[0] ? 32 : 64;
+  } else if (strchr("fFeEgG", conv)) {
+    if (mod[0] && strcmp(mod, "l")) return 0;
+    t->kind = T_FLT; t->wide = mod[0] == 'l';
+  } else return 0;
+  snprintf(t->fmt, sizeof t->fmt, "%%%s", sp);
+  return 1;
+}
+static int c_space(int b) { return b == 32 || (b >= 9 && b <= 13); }
+static int parse_sep(const char* s, unsigned char* out, size_t* n) {
+  if (!parse_hex(s, out, 8, n)) return 0;
+  for (size_t i = 0; i < *n; i++) if (out[i] == '%' || out[i] == 0) return 0;
+  out[*n] = 0;
+  return 1;
+}
+#define MAXSTRVAL 64
+#define MAXWORD 190
+#define TS_WINDOW 4200
+#define TS_LIMIT 4000
+struct tval { long long iv; double d; unsigned char s[TS_WINDOW + 8]; size_t sl; };
+static uint64_t bits_of(double d) { uint64_t u; memcpy(&u, &d, 8); return u; }
+static int kind_is_int(int k) { return k == T_INT || k == T_CHR || k == T_SHOWI; }
+static int kind_is_flt(int k) { return k == T_FLT || k == T_SHOWF; }
+static void tval_text(const struct tspec* t, const struct tval* v, char* out, size_t n) {
+  if (kind_is_int(t->kind)) snprintf(out, n, "%lld", v->iv);
+  else if (kind_is_flt(t->kind)) snprintf(out, n, "x%016llx", (unsigned long long)bits_of(v->d));
+  else snprintf(out, n, "s%zu:%llu", v->sl, (unsigned long long)fnv(v->s, v->sl));
+}
+/* an independent writer / reader of String literals (the C escapes \a \b \f \n \r \t \v \\ \' \" \?), on a libc stream */
+static const char ESC_BYTES[] = "\a\b\f\n\r\t\v\\\'\"\?"; static const char ESC_LETTERS[] = "abfnrtv\\'\"?";
+static int ref_show_string(FILE* tw, const unsigned char* str, size_t n) {
+  int tot = 0, r = fprintf(tw, "\""); if (r < 0) return -1; tot += r;
+  for (size_t i = 0; i < n; i++) {
+    const char* e = str[i] ? strchr(ESC_BYTES, str[i]) : NULL;
+    r = e ? fprintf(tw, "\\%c", ESC_LETTERS[e - ESC_BYTES]) : fprintf(tw, "%c", str[i]);
+    if (r < 0) return -1; tot += r;
+  }
+  r = fprintf(tw, "\""); if (r < 0) return -1;
+  return tot + r;
+}
+/* parses a literal from a byte window; returns bytes consumed (0 = not a complete well-formed literal within the window) */
+static size_t ref_look_window(const unsigned char* b, size_t n, unsigned char* out, size_t* outlen) {
+  size_t i = 0, k = 0;
+  if (n == 0 || b[0] != '"') return 0;
+  for (i = 1; i < n; i++) {
+    if (b[i] == '"') { *outlen = k; return i + 1; }
+    if (b[i] == '\\') {
+      if (i + 1 >= n) return 0;
+      const char* e = b[i + 1] ? strchr(ESC_LETTERS, b[i + 1]) : NULL;
+      if (!e) return 0;
+      out[k++] = (unsigned char)ESC_BYTES[e - ESC_LETTERS]; i++;
+    } else if (b[i] != 0) out[k++] = b[i];
+  }
+  return 0;
+}
+/* the round trip itself: what was printed where */
+struct trec { int file; long off; char spec[8]; int kind; long long iv; unsigned char s[MAXSTRVAL + 1]; size_t sl; };
+#define MAXTREC 512
+static struct trec trecs[MAXTREC]; static int ntrec = 0;
+static void trec_drop(int k, long from) {
+  int j = 0;
+  for (int i = 0; i < ntrec; i++) if (!(trecs[i].file == k && trecs[i].off >= from)) trecs[j++] = trecs[i];
+  ntrec = j;
+}
+static int representable(const struct tspec* t, const struct tval* v, const unsigned char* sep, size_t seplen) {
+  int term = seplen > 0 && (c_space(sep[0]) || strchr(",;:|/", sep[0]) != NULL);
+  switch (t->kind) {
+    case T_INT:
+      if (!term) return 0;
+      if (t->width == 64) return 1;
+      if (t->sgn) return v->iv >= -(1LL << (t->width - 1)) && v->iv < (1LL << (t->width - 1));
+      return v->iv >= 0 && v->iv < (1LL << t->width);
+    case T_CHR: return v->iv >= -128 && v->iv <= 127;
+    case T_SHOWI: return term;
+    case T_STR:
+      if (v->sl == 0 || !(seplen > 0 && c_space(sep[0]))) return 0;
+      for (size_t i = 0; i < v->sl; i++) if (c_space(v->s[i])) return 0;
+      return 1;
+    case T_SHOWS: return 1;
+    default: return 0;
+  }
+}
+static void emit_t(int o, const char* op, const char* extra) {
+  char st[96]; st_text(o, st, sizeof st);
+  char cs[96];
+  if (ncalls == 0) snprintf(cs, sizeof cs, "-");
+  else if (calls_same) snprintf(cs, sizeof cs, "%s*%d", first_call, ncalls);
+  else { snprintf(cs, sizeof cs, "mixed*%d", ncalls); X("sig=stale-handle line=%zu what=one print_to / scan_from made stdio calls on different streams or of different kinds (%s)", cur_line, callbuf); }
+  O("%s exc=%s %s st=%s calls=%s live=%d", op, v_exc_name(r_exc), extra, st, cs, nlive);
+  check_accounting();
+}
+static int twin_print(FILE* tw, const struct tspec* t, const struct tval* v) {
+  switch (t->kind) {
+    case T_INT: return t->width == 64 ? fprintf(tw, t->fmt, (long)v->iv) : fprintf(tw, t->fmt, (int)v->iv);
+    case T_CHR: return fprintf(tw, "%c", (int)v->iv);
+    case T_FLT: return fprintf(tw, t->fmt, v->d);
+    case T_STR: return fprintf(tw, "%s", (const char*)v->s);
+    case T_SHOWI: return fprintf(tw, "%li", (long)v->iv);
+    case T_SHOWF: return fprintf(tw, "%f", v->d);
+    default: return ref_show_string(tw, v->s, v->sl);
+  }
+}
+/* libc's own conversion of the text at the stream / in the window into the C type the specification names.
+   `src` = NULL: sscanf on the window `w`; otherwise fscanf on the stream.  Returns 1 when converted; *off = characters consumed. */
+static int libc_scan(FILE* src, const char* w, const struct tspec* t, struct tval* out, int* off) {
+  char f[32]; int r = 0; *off = 0;
+#define SCAN1(fmtstr, ptr) (src ? fscanf(src, fmtstr, ptr, off) : sscanf(w, fmtstr, ptr, off))
+  switch (t->kind) {
+    case T_INT: {
+      snprintf(f, sizeof f, "%s%%n", t->fmt);
+      if (t->width == 8) { if (t->sgn) { signed char x = 0; r = SCAN1(f, &x); out->iv = (long long)x; } else { unsigned char x = 0; r = SCAN1(f, &x); out->iv = (long long)x; } }
+      else if (t->width == 16) { if (t->sgn) { short x = 0; r = SCAN1(f, &x); out->iv = (long long)x; } else { unsigned short x = 0; r = SCAN1(f, &x); out->iv = (long long)x; } }
+      else if (t->width == 32) { if (t->sgn) { int x = 0; r = SCAN1(f, &x); out->iv = (long long)x; } else { unsigned int x = 0; r = SCAN1(f, &x); out->iv = (long long)x; } }
+      else { if (t->sgn) { long x = 0; r = SCAN1(f, &x); out->iv = (long long)x; } else { unsigned long x = 0; r = SCAN1(f, &x); out->iv = (long long)x; } }
+      return r >= 1;
+    }
+    case T_CHR: { char x = 0; r = SCAN1("%c%n", &x); out->iv = (long long)x; return r >= 1; }
+    case T_FLT: {
+      snprintf(f, sizeof f, "%s%%n", t->fmt);
+      if (t->wide) { double x = 0; r = SCAN1(f, &x); out->d = x; } else { float x = 0; r = SCAN1(f, &x); out->d = (double)x; }
+      return r >= 1;
+    }
+    case T_SHOWI: { long x = 0; r = SCAN1("%li%n", &x); out->iv = (long long)x; return r >= 1; }
+    case T_SHOWF: { double x = 0; r = SCAN1("%lf%n", &x); out->d = x; return r >= 1; }
+    case T_STR: { out->s[0] = 0; r = SCAN1("%4100s%n", (char*)out->s); out->sl = r >= 1 ? strlen((char*)out->s) : 0; return r >= 1; }
+    default: return 0;
+  }
+#undef SCAN1
+}
+/* 0: outside what both sides execute; 1: libc converts the text at the twin's position; 2: the file ends there (after white space) */
+static int ts_supported(int o, const struct tspec* t) {
+  FILE* tw = bk[o].twin; if (!tw) return 1;
+  if (!m_read(bk[o].mode)) return 1;                      /* vfscanf answers EOF: FormatError, nothing consumed */
+  long pos = __real_ftell(tw);
+  char p[400]; path_of(bk[o].file, 1, p, sizeof p);
+  int fd = open(p, O_RDONLY); if (fd < 0) return 0;
+  static unsigned char b[TS_WINDOW + 8]; ssize_t n = pread(fd, b, TS_WINDOW, pos); close(fd);
+  if (n < 0) n = 0;
+  b[n] = 0;
+  ssize_t ws = 0; while (ws < n && c_space(b[ws])) ws++;
+  if (t->kind == T_CHR) return n > 0 ? 1 : 2;
+  if (t->kind == T_SHOWS) {
+    if (n == 0) return 2;
+    static unsigned char tmp[TS_WINDOW + 8]; size_t tl; size_t used = ref_look_window(b, (size_t)n, tmp, &tl);
+    return used > 0 && used < TS_LIMIT ? 1 : 0;
+  }
+  if (ws == n) return n < TS_LIMIT ? 2 : 0;               /* only white space up to the end of the file */
+  if (t->kind == T_STR) {
+    ssize_t e = ws; while (e < n && !c_space(b[e])) e++;
+    if (e - ws > MAXWORD || e >= TS_LIMIT) return 0;
+    return 1;
+  }
+  if (kind_is_flt(t->kind)) {
+    ssize_t i = ws; if (i < n && (b[i] == '+' || b[i] == '-')) i++;
+    if (i < n && strchr("iInN", b[i]) && b[i]) return 0;                        /* inf / nan */
+    if (i + 1 < n && b[i] == '0' && (b[i + 1] == 'x' || b[i + 1] == 'X')) return 0;    /* hexadecimal floats */
+  }
+  struct tval v; int off = 0;
+  if (!libc_scan(NULL, (const char*)b, t, &v, &off)) return 0;                  /* a matching failure in the middle of the text */
+  return off < TS_LIMIT ? 1 : 0;
+}
+static void exec_tp(int o, char** tok, int nt) {
+  struct tspec t; static struct tval v; unsigned char sep[16]; size_t seplen = 0; char* e; char ex[160];
+  if (nt != 5 || !parse_tspec(tok[2], &t) || !parse_sep(tok[4], sep, &seplen)) { O("bad-op"); return; }
+  memset(&v, 0, sizeof v);
+  if (kind_is_int(t.kind)) {
+    const char* q = tok[3]; if (*q == '-') q++;
+    if (!*q || strlen(q) > 19) { O("bad-op"); return; }
+    for (const char* z = q; *z; z++) if (*z < '0' || *z > '9') { O("bad-op"); return; }
+    errno = 0; v.iv = strtoll(tok[3], &e, 10); if (*e || errno == ERANGE) { O("bad-op"); return; }
+  } else if (kind_is_flt(t.kind)) {
+    if (tok[3][0] != 'x' || strlen(tok[3]) != 17) { O("bad-op"); return; }
+    for (const char* z = tok[3] + 1; *z; z++) if (!isxdigit((unsigned char)*z)) { O("bad-op"); return; }
+    uint64_t u = strtoull(tok[3] + 1, &e, 16); if (*e) { O("bad-op"); return; }
+    if (((u >> 52) & 0x7ff) == 0x7ff) { O("bad-op"); return; }
+    memcpy(&v.d, &u, 8);
+  } else {
+    if (!parse_hex(tok[3], v.s, MAXSTRVAL, &v.sl)) { O("bad-op"); return; }
+    for (size_t i = 0; i < v.sl; i++) if (v.s[i] == 0) { O("bad-op"); return; }
+    v.s[v.sl] = 0;
+  }
+  int was_open = raw(o) != NULL;
+  if (was_open && ((bk[o].last == L_READ && !__real_feof(raw(o))) || bk[o].file == F_FULL || __real_ftell(raw(o)) > POS_LIMIT)) { O("tp unsup"); return; }
+  char fmt[40]; snprintf(fmt, sizeof fmt, "%s%s", t.fmt, (char*)sep);
+  var a = kind_is_int(t.kind) ? $I(v.iv) : kind_is_flt(t.kind) ? $F(v.d) : $S((char*)v.s);
+  begin_op(); trk = 1; V_TRY(r_exc, r_ret = print_to(objs[o], 0, fmt, a)); trk = 0;
+  if (!refused_if_closed(o, "tp", was_open)) {
+    FILE* tw = bk[o].twin;
+    int x = twin_print(tw, &t, &v); int y = (x < 0 || !seplen) ? 0 : fprintf(tw, "%s", (char*)sep);
+    expect_exc("tp", (x < 0 || y < 0) ? FormatError : NULL);
+    if (!r_exc && r_ret != x + y) X("sig=ret-mismatch line=%zu what=print_to \"%s\" returned %lld, libc's fprintf on the twin wrote %d", cur_line, fmt, r_ret, x + y);
+    if (m_write(bk[o].mode)) bk[o].last = L_WRITE;
+    compare_stream(o, "tp");
+    if (x >= 0 && y >= 0 && bk[o].file >= 0 && bk[o].file < NFILE) {
+      long at = __real_ftell(tw) - (x + y);
+      trec_drop(bk[o].file, at);
+      if (representable(&t, &v, sep, seplen) && ntrec < MAXTREC) {
+        struct trec* r = &trecs[ntrec++]; memset(r, 0, sizeof *r);
+        r->file = bk[o].file; r->off = at; snprintf(r->spec, sizeof r->spec, "%s", t.name); r->kind = t.kind; r->iv = v.iv;
+        memcpy(r->s, v.s, v.sl); r->sl = v.sl;
+      }
+    }
+  }
+  snprintf(ex, sizeof ex, "ret=%lld", r_exc ? -1LL : r_ret);
+  emit_t(o, "tp", ex);
+}
+static void exec_ts(int o, char** tok, int nt) {
+  struct tspec t; unsigned char sep[16]; size_t seplen = 0; char ex[200], vt[96];
+  if (nt != 4 || !parse_tspec(tok[2], &t) || !parse_sep(tok[3], sep, &seplen)) { O("bad-op"); return; }
+  int was_open = raw(o) != NULL;
+  if (was_open && (bk[o].last == L_WRITE || bk[o].file == F_FULL)) { O("ts unsup"); return; }
+  int sup = was_open ? ts_supported(o, &t) : 1;
+  if (!sup) { O("ts unsup"); return; }
+  char fmt[40]; snprintf(fmt, sizeof fmt, "%s%s", t.fmt, (char*)sep);
+  static char pad[201]; if (!pad[0]) { memset(pad, '#', 200); pad[200] = 0; }
+  var a; int heap = 0;
+  if (kind_is_int(t.kind)) a = $I(-777);
+  else if (kind_is_flt(t.kind)) a = $F(7.5);
+  else { a = new(String, $S(pad)); heap = 1; strcpy(c_str(a), "?"); }
+  begin_op(); trk = 1; V_TRY(r_exc, r_ret = scan_from(objs[o], 0, fmt, a)); trk = 0;
+  static struct tval got, want; memset(&got, 0, sizeof got);
+  if (kind_is_int(t.kind)) got.iv = c_int(a);
+  else if (kind_is_flt(t.kind)) got.d = c_float(a);
+  else { const char* cs = c_str(a); got.sl = strlen(cs); if (got.sl > TS_WINDOW) got.sl = TS_WINDOW; memcpy(got.s, cs, got.sl); }
+  if (!refused_if_closed(o, "ts", was_open)) {
+    FILE* tw = bk[o].twin;
+    long before = __real_ftell(tw);
+    int off = 0, ok;
+    memset(&want, 0, sizeof want);
+    if (t.kind == T_SHOWS) {
+      /* the reference reader works on the window; the twin is then advanced by what it consumed */
+      ok = 0;
+      if (m_read(bk[o].mode) && sup == 1) {
+        char p[400]; path_of(bk[o].file, 1, p, sizeof p);
+        int fd = open(p, O_RDONLY); static unsigned char b[TS_WINDOW + 8]; ssize_t n = fd >= 0 ? pread(fd, b, TS_WINDOW, before) : 0; if (fd >= 0) close(fd);
+        size_t used = ref_look_window(b, n > 0 ? (size_t)n : 0, want.s, &want.sl);
+        if (used) { ok = 1; off = (int)used; for (size_t i = 0; i < used; i++) if (fgetc(tw) == EOF) break; }
+      } else { int c = fgetc(tw); if (c != EOF) ungetc(c, tw); }
+    } else ok = libc_scan(tw, NULL, &t, &want, &off);
+    if (ok && seplen) { if (fscanf(tw, (char*)sep) < -1) {} }
+    expect_exc("ts", ok ? NULL : FormatError);
+    if (!r_exc && ok) {
+      int same = kind_is_int(t.kind) ? got.iv == want.iv : kind_is_flt(t.kind) ? bits_of(got.d) == bits_of(want.d)
+               : (got.sl == want.sl && memcmp(got.s, want.s, got.sl) == 0);
+      if (!same) {
+        char wt[96]; tval_text(&t, &got, vt, sizeof vt); tval_text(&t, &want, wt, sizeof wt);
+        X("sig=text-value-mismatch line=%zu what=scan_from \"%s\" delivered %s into the object, libc's own fscanf of the same bytes into the C type of %%%s gives %s", cur_line, fmt, vt, t.name, wt);
+      }
+      if (r_ret != off + (long long)seplen) X("sig=ret-mismatch line=%zu what=scan_from \"%s\" returned %lld, libc consumed %d characters for the conversion and the literal has %zu", cur_line, fmt, r_ret, off, seplen);
+      for (int i = 0; i < ntrec; i++) {
+        struct trec* r = &trecs[i];
+        if (r->file != bk[o].file || r->off != before || strcmp(r->spec, t.name) != 0) continue;
+        int back = kind_is_int(t.kind) ? got.iv == r->iv : (got.sl == r->sl && memcmp(got.s, r->s, r->sl) == 0);
+        if (!back) {
+          tval_text(&t, &got, vt, sizeof vt);
+          if (kind_is_int(t.kind)) X("sig=text-roundtrip line=%zu what=print_to wrote %lld with %%%s at offset %ld; scan_from with %%%s at that offset read back %s", cur_line, r->iv, t.name, r->off, t.name, vt);
+          else X("sig=text-roundtrip line=%zu what=print_to wrote a string of %zu bytes with %%%s at offset %ld; scan_from read back %s", cur_line, r->sl, t.name, r->off, vt);
+        }
+        break;
+      }
+    }
+    if (m_read(bk[o].mode)) bk[o].last = L_READ;
+    compare_stream(o, "ts");
+  }
+  tval_text(&t, &got, vt, sizeof vt);
+  snprintf(ex, sizeof ex, "val=%s ret=%lld", vt, r_exc ? -1LL : r_ret);
+  if (heap) { var x2; V_TRY(x2, del(a)); }
+  emit_t(o, "ts", ex);
 }
 
 /* ------------------------------------------------------------------------------------------ Process (popen / pclose) */
@@ -1063,6 +1374,7 @@ static void exec_op(char** lines, size_t* ip, size_t hi) {
     char p1[400], p2[400]; path_of((int)k, 0, p1, sizeof p1); path_of((int)k, 1, p2, sizeof p2);
     if (!strcmp(op, "rm")) {
       int a = unlink(p1) == 0, b = unlink(p2) == 0;
+      trec_drop((int)k, 0);
       if (a != b) X("sig=file-content line=%zu what=file %ld exists=%d but its twin exists=%d", cur_line, k, a, b);
       O("rm %ld ok=%d", k, a);
       return;
@@ -1285,6 +1597,8 @@ static void exec_op(char** lines, size_t* ip, size_t hi) {
     do_write(o, "writehex", len);
     return;
   }
+  if (!strcmp(op, "tp")) { exec_tp(o, tok, nt); return; }
+  if (!strcmp(op, "ts")) { exec_ts(o, tok, nt); return; }
   if (!strcmp(op, "print")) {
     if (nt != 3) { O("bad-op"); return; }
     long long v = strtoll(tok[2], &e, 10); if (*e) { O("bad-op"); return; }
@@ -1295,7 +1609,7 @@ static void exec_op(char** lines, size_t* ip, size_t hi) {
       int a = fprintf(bk[o].twin, "%li", (long)v); int b = a < 0 ? -1 : fprintf(bk[o].twin, " ");
       expect_exc("print", (a < 0 || b < 0) ? FormatError : NULL);
       if (!r_exc && r_ret != a + b) X("sig=ret-mismatch line=%zu what=print_to returned %lld, fprintf on the twin wrote %d", cur_line, r_ret, a + b);
-      if (m_write(bk[o].mode)) bk[o].last = L_WRITE;
+      if (m_write(bk[o].mode)) { bk[o].last = L_WRITE; trec_drop(bk[o].file, 0); }
       compare_stream(o, "print");
     }
     snprintf(ex, sizeof ex, "ret=%lld", r_exc ? -1LL : r_ret);
